@@ -461,8 +461,18 @@ struct Observed {
     formatted: HashMap<String, String>,
 }
 
-fn observe(texts: &HashMap<String, String>, keys: &[String], queries: &[String]) -> Observed {
-    let db = Database::new(texts.clone(), true, opts(""));
+fn observe(texts: &HashMap<String, String>, keys: &[String], queries: &[String], from: Option<&HashMap<String, String>>) -> Observed {
+    // a library may be reached by editing another one (long-lived graph): every note whose text
+    // differs is updated, in key order
+    let mut changed: Vec<&String> = match from {
+        Some(f) => texts.keys().filter(|k| f.get(*k) != Some(&texts[*k])).collect(),
+        None => vec![],
+    };
+    changed.sort();
+    let mut db = Database::new(from.unwrap_or(texts).clone(), true, opts(""));
+    for k in &changed {
+        db.update_document(k.as_str().into(), texts[*k].clone());
+    }
     let g: &Graph = db.graph();
     let elems = |ids: Vec<u64>| -> Vec<(String, Option<usize>, String)> {
         ids.iter().map(|id| (g.node(*id).node_key().to_string(), g.node_line_number(*id), g.get_text(*id).trim().to_string())).collect()
@@ -475,7 +485,13 @@ fn observe(texts: &HashMap<String, String>, keys: &[String], queries: &[String])
         search.push((q.clone(), r.iter().map(|p| (p.search_text.clone(), p.key.to_string(), p.line, p.root, elems(p.path.ids()))).collect()));
     }
     let formatted: HashMap<String, String> = keys.iter().map(|k| (k.clone(), g.to_markdown(&k.as_str().into()))).collect();
-    let s = server(texts, "");
+    let mut s = server(from.unwrap_or(texts), "");
+    for (i, k) in changed.iter().enumerate() {
+        s.handle_did_change_text_document(DidChangeTextDocumentParams {
+            text_document: VersionedTextDocumentIdentifier { uri: uri(k), version: i as i32 },
+            content_changes: vec![TextDocumentContentChangeEvent { range: None, range_length: None, text: texts[*k].clone() }],
+        });
+    }
     let mut ws = vec![];
     for q in queries {
         let v = match s.handle_workspace_symbols(ws_params(q)) {
@@ -529,6 +545,12 @@ fn queries_of(texts: &HashMap<String, String>) -> Vec<String> {
 }
 
 fn run_case(case: &str) -> CaseResult {
+    // "A~>B": library B reached from library A by updating the notes that differ
+    let (from_s, case) = match case.split_once("~>") {
+        Some((a, b)) => (Some(a), b),
+        None => (None, case),
+    };
+    let from: Option<HashMap<String, String>> = from_s.map(|a| lib_texts(&parse_lib(a)));
     let notes = parse_lib(case);
     if notes.is_empty() {
         return CaseResult { outcome: "unparsable-case".into(), ..Default::default() };
@@ -539,7 +561,8 @@ fn run_case(case: &str) -> CaseResult {
     let t2 = texts.clone();
     let k2 = keys.clone();
     let q2 = queries.clone();
-    let obs = match guarded(move || observe(&t2, &k2, &q2)) {
+    let f2 = from.clone();
+    let obs = match guarded(move || observe(&t2, &k2, &q2, f2.as_ref())) {
         Ok(o) => o,
         Err(p) => {
             // a panic of the reader at import is C03's; anything later (listing the paths) fails the property
@@ -557,7 +580,10 @@ fn run_case(case: &str) -> CaseResult {
     let m = build_model(&texts, Some(&obs.formatted), &mut mnotes);
     let ng = note_graph(&m);
     let feats = lib_features(&m, &ng);
-    let head = format!("library {}", trunc(&show_texts(&notes), 500));
+    let head = match from_s {
+        Some(a) => format!("library {} reached by editing {}", trunc(&show_texts(&notes), 500), trunc(a, 200)),
+        None => format!("library {}", trunc(&show_texts(&notes), 500)),
+    };
     let mut failures: Vec<Failure> = vec![];
     let mut fail = |clause: &str, site: String, extra: &[&str], detail: String| {
         let mut f = feats.clone();
@@ -892,8 +918,8 @@ impl Engine for C18 {
     }
     fn bound(&self, tier: Tier) -> String {
         match tier {
-            Tier::Quick => format!("1 note: <= 3 blocks over {{#T, ##S, p, >1, >9, #Dup, # (empty), heading in list item, heading in quote}}; 2 notes: note 1 <= 3 blocks over the same alphabet with >1,>2, note 2 <= 2 blocks, and both notes <= 3 blocks over {{#T, ##S, p, >1, >2, >9}}; plus {} libraries with > 100 headings / graded reference counts", cap_libs().len()),
-            Tier::Thorough => format!("1 note: <= 4 blocks; 2 notes: <= 3 blocks each over the full alphabet; 3 notes: <= 2 blocks each over {{#T, ##S, p, >1, >2, >3, >9}} and note 1 <= 3 blocks; plus {} libraries with > 100 headings / graded reference counts", cap_libs().len()),
+            Tier::Quick => format!("every 2-note library with <= 2 blocks per note over {{#T, ##S, p, >1, >2, >9}} reached from every library that differs in one note (Database::update_document and didChange); 1 note: <= 3 blocks over {{#T, ##S, p, >1, >9, #Dup, # (empty), heading in list item, heading in quote}}; 2 notes: note 1 <= 3 blocks over the same alphabet with >1,>2, note 2 <= 2 blocks, and both notes <= 3 blocks over {{#T, ##S, p, >1, >2, >9}}; plus {} libraries with > 100 headings / graded reference counts", cap_libs().len()),
+            Tier::Thorough => format!("2-note libraries reached by editing one note (edited note <= 3 blocks before or after, the other <= 2); 1 note: <= 4 blocks; 2 notes: <= 3 blocks each over the full alphabet; 3 notes: <= 2 blocks each over {{#T, ##S, p, >1, >2, >3, >9}} and note 1 <= 3 blocks; plus {} libraries with > 100 headings / graded reference counts", cap_libs().len()),
         }
     }
     fn assumptions(&self) -> Vec<String> {
@@ -930,6 +956,28 @@ impl Engine for C18 {
                 }
             }
         }
+        // libraries reached by editing one note of another library (the reference index and the
+        // arena keep what the old text left behind)
+        {
+            let a = shapes(1, 2, if thorough { 3 } else { 2 }, false);
+            let b = shapes(2, 2, 2, false);
+            let a_old = shapes(1, 2, 2, false);
+            let b_old = shapes(2, 2, if thorough { 3 } else { 2 }, false);
+            for x in &a {
+                for y in &b {
+                    for o in &a_old {
+                        if o != x {
+                            emit(&format!("{}|{}~>{}|{}", o, y, x, y));
+                        }
+                    }
+                    for o in &b_old {
+                        if o != y {
+                            emit(&format!("{}|{}~>{}|{}", x, o, x, y));
+                        }
+                    }
+                }
+            }
+        }
         if thorough {
             let a = shapes(1, 3, 3, false);
             let b = shapes(2, 3, 2, false);
@@ -944,6 +992,7 @@ impl Engine for C18 {
         }
     }
     fn features(&self, case: &str) -> Vec<String> {
+        let case = case.split_once("~>").map(|x| x.1).unwrap_or(case);
         let notes = parse_lib(case);
         let texts = lib_texts(&notes);
         let mut n = vec![];
